@@ -9,7 +9,7 @@ import (
 )
 
 // hookCommits lists the commits of /repo that add the verif-guarded hooks.
-var hookCommits = []string{}
+var hookCommits = []string{"25147e36604c2e1b424f70bb84a4eebcc088c7da"}
 
 var notApplicable = map[string]string{}
 
